@@ -35,10 +35,25 @@ EntryCls(kind, cls) == CASE kind \in {NTUPLE, NLIST, NDEQUE} -> "SequenceEntry"
                          [] OTHER -> CustomEntryCls(cls)
 TypeTag(kind, ty) == CASE kind = NTUPLE -> 101 [] kind = NLIST -> 102 [] kind = NDICT -> 103 [] kind = NODICT -> 104
                        [] kind = NDDICT -> 105 [] kind = NDEQUE -> 106 [] OTHER -> ty
+\* field names of the namedtuple / struct-sequence classes of the universe
+FieldNames(cls) == CASE cls = 11 -> <<"x", "y">> [] cls = 12 -> <<"u">> [] cls = 13 -> <<>> [] cls = 14 -> <<"x", "y">>
+                     [] cls = 15 -> <<"p", "q", "r">> [] cls = 21 -> <<"columns", "lines">>
+                     [] cls = 22 -> <<"user", "system", "children_user", "children_system", "elapsed">>
 ExpAccs(spec) == LET tp == TypedPaths(spec) IN
                  [i \in DOMAIN tp |-> [j \in DOMAIN tp[i] |->
                      [e |-> tp[i][j].e, kind |-> tp[i][j].kind, ty |-> TypeTag(tp[i][j].kind, tp[i][j].ty),
-                      ecls |-> EntryCls(tp[i][j].kind, tp[i][j].ty)]]]
+                      ecls |-> EntryCls(tp[i][j].kind, tp[i][j].ty),
+                      name |-> IF tp[i][j].kind \in {NNT, NSS} THEN FieldNames(tp[i][j].ty)[tp[i][j].e[2] + 1] ELSE ""]]]
+\* an accessor generates evaluable code unless it passes through a FlattenedEntry
+Codifiable(acc) == \A j \in DOMAIN acc : acc[j].ecls # "FlattenedEntry"
+AccLaws(o, exp) ==
+  LET l == o.laws  ea == ExpAccs(exp.spec) IN
+  Chk("acc:routes-equal", l.eq_routes /\ l.hash_routes) \o
+  Chk("acc:path-attr", l.path_attr) \o
+  Chk("acc:slices", l.slices_typed) \o
+  Chk("acc:split-composes", \A i \in DOMAIN l.split : \A j \in DOMAIN l.split[i] : l.split[i][j] = exp.leaves[i]) \o
+  Chk("acc:codify-eval", \A i \in DOMAIN l.code : Codifiable(ea[i]) => l.code[i] = exp.leaves[i]) \o
+  Chk("acc:distinct-prefix-free", PrefixFree(o.paths) /\ Len(o.paths) = NumLeaves(exp.spec))
 
 \* ---- the flatten family: one clause per entry point ----------------------------------------
 OutChecks(o, exp) ==
@@ -49,7 +64,8 @@ OutChecks(o, exp) ==
           (IF Has(o, "spec") THEN Chk(o.ep \o ":spec", o.spec = exp.spec) ELSE <<>>) \o
           (IF Has(o, "paths") THEN Chk(o.ep \o ":paths", o.paths = Paths(exp.spec)) ELSE <<>>) \o
           (IF Has(o, "accs") THEN Chk(o.ep \o ":accessors", o.accs = ExpAccs(exp.spec)) ELSE <<>>) \o
-          (IF Has(o, "hits") THEN Chk(o.ep \o ":accessor(tree) is leaf", o.hits = exp.leaves) ELSE <<>>))
+          (IF Has(o, "hits") THEN Chk(o.ep \o ":accessor(tree) is leaf", o.hits = exp.leaves) ELSE <<>>) \o
+          (IF Has(o, "laws") THEN AccLaws(o, exp) ELSE <<>>))
 FlattenFamily(c) ==
   LET exp == Flatten(c.t, c.cfg) IN
   (IF Has(c, "only_again") THEN <<>> ELSE Concat([j \in DOMAIN c.outs |-> OutChecks(c.outs[j], exp)])) \o
@@ -89,6 +105,30 @@ RoundTrip(c) ==
            Chk("rep:again-leaves", r.again.err = "" /\ r.again.leaves = r.ids) \o
            Chk("rep:again-spec", r.again.err = "" /\ SpecEq(r.again.spec, f.spec) /\ r.again.spec = f.spec))) \o
      Chk("wrong-count:ValueError", \A j \in DOMAIN c.bad : c.bad[j].err = "Value"))
+
+\* ---- C02: consequences of the ordering / classification rules, on the real outputs -----------
+RECURSIVE ReplaceNones(_, _, _)
+ReplaceNones(t, sid, c) ==
+  IF t.k = "none" THEN PlainLeaf(sid)
+  ELSE IF KindOf(t, c) = "leaf" THEN t
+  ELSE [t EXCEPT !.id = 0 - 1, !.ch = [i \in DOMAIN t.ch |-> ReplaceNones(t.ch[i], sid, c)]]
+RECURSIVE SortableT(_)
+SortableT(t) == /\ t.k \in {"dict", "ddict"} => (AllComparable(t.keys) \/ SameTypeComparable(t.keys))
+                /\ \A i \in DOMAIN t.ch : SortableT(t.ch[i])
+C02Laws(c) ==
+  LET ok(r) == r.err = "" IN
+  Chk("no-error", ok(c.nilF) /\ ok(c.nilT) /\ ok(c.withpred) /\ ok(c.nopred) /\ ok(c.shuf)) \o
+  (IF ~(ok(c.nilF) /\ ok(c.nilT) /\ ok(c.withpred) /\ ok(c.nopred) /\ ok(c.shuf)) THEN <<>> ELSE
+   \* (a predicate that itself claims None as a leaf is outside the statement)
+   Chk("none-removal", ~PredLeaf(NoneTree, c.cfg) => c.nilF.leaves = SelectSeq(c.nilT.leaves, LAMBDA x : x # 0)) \o
+   Chk("pred-refinement", (\A j \in DOMAIN c.parts : ok(c.parts[j])) /\
+                          Concat([j \in DOMAIN c.parts |-> c.parts[j].leaves]) = c.nopred.leaves) \o
+   Chk("insertion-order-invariance", (~Ordered(c.cfg) /\ SortableT(c.t)) =>
+                                        c.shuf.leaves = c.withpred.leaves /\ SpecEq(c.shuf.spec, c.withpred.spec)
+                                        /\ HashKeyDoc(c.shuf.spec) = HashKeyDoc(c.withpred.spec)) \o
+   Chk("replace_nones", c.replace_nones.err = "" /\
+                        c.replace_nones.tree = ReplaceNones(c.t, c.replace_nones.sentinel,
+                                                            [c.cfg EXCEPT !.nil = FALSE, !.haspred = FALSE])))
 
 \* ---- unflatten -----------------------------------------------------------------------------
 UnflattenCase(c) ==
@@ -130,6 +170,7 @@ Verdict(c) ==
   CASE c.op = "flatten" -> FlattenFamily(c)
     [] c.op = "unflatten" -> UnflattenCase(c)
     [] c.op = "roundtrip" -> RoundTrip(c)
+    [] c.op = "c02laws" -> C02Laws(c)
     [] c.op = "inspect" -> InspectCase(c)
     [] OTHER -> <<"unknown-op">>
 
